@@ -4,7 +4,13 @@ package gen
 
 type Rng struct{ s uint64 }
 
-func New(seed uint64) *Rng { return &Rng{s: seed*0x9E3779B97F4A7C15 + 0x1234567} }
+// New hashes the seed first: with s = seed*G + c and U64 adding G per draw, seed k would be seed 1's
+// stream advanced by k-1 draws, and drivers whose cases consume a variable number of draws would
+// re-synchronise across seeds.
+func New(seed uint64) *Rng {
+	r := &Rng{s: seed*0x9E3779B97F4A7C15 + 0x1234567}
+	return &Rng{s: r.U64() ^ (seed << 32)}
+}
 
 func (r *Rng) U64() uint64 {
 	r.s += 0x9E3779B97F4A7C15
